@@ -5,18 +5,27 @@ Import ListNotations.
 Local Open Scope N_scope.
 
 (* ---- finite sweeps lifted to all values below a bound ------------------- *)
-Definition nrange (n : nat) : list N := map N.of_nat (seq 0 n).
+Fixpoint nseq (n : nat) (start : N) : list N :=
+  match n with
+  | O => []
+  | S k => start :: nseq k (N.succ start)
+  end.
 
-Lemma nrange_in (n : nat) (x : N) : x < N.of_nat n -> In x (nrange n).
+Lemma nseq_in n : forall start x, start <= x -> x < start + N.of_nat n -> In x (nseq n start).
 Proof.
-  intros H. unfold nrange. apply in_map_iff. exists (N.to_nat x). split.
-  - apply N2Nat.id.
-  - apply in_seq. lia.
+  induction n as [|n IH]; intros start x H1 H2; [lia|].
+  cbn [nseq]. destruct (N.eq_dec x start) as [->|Hne]; [now left|].
+  right. apply IH; lia.
 Qed.
 
-Lemma sweep (P : N -> bool) (n : nat) :
-  forallb P (nrange n) = true -> forall x, x < N.of_nat n -> P x = true.
-Proof. intros H x Hx. rewrite forallb_forall in H. apply H. now apply nrange_in. Qed.
+Definition nrange (n : N) : list N := nseq (N.to_nat n) 0.
+
+Lemma sweep (P : N -> bool) (n : N) :
+  forallb P (nrange n) = true -> forall x, x < n -> P x = true.
+Proof.
+  intros H x Hx. rewrite forallb_forall in H. apply H.
+  unfold nrange. apply nseq_in; lia.
+Qed.
 
 (* ---- characters ---------------------------------------------------------- *)
 Lemma is_digit_dec_char c : is_digit c = dec_char c.
@@ -185,6 +194,20 @@ Proof.
   unfold ipv4_to_str. cbn [snd]. split; [apply snprintf_store_len|].
   intros H. rewrite snprintf_store_fits; [reflexivity|].
   pose proof (ipv4_text_length a). lia.
+Qed.
+
+(* with the repair: success means the complete text was stored, whatever the length *)
+Lemma bounds4_fixed a len :
+  N.of_nat (length (snd (ipv4_to_str_fixed a len))) <= len /\
+  (fst (ipv4_to_str_fixed a len) = 0%Z -> snd (ipv4_to_str_fixed a len) = ipv4_text a ++ [0]) /\
+  (16 <= len -> ipv4_to_str_fixed a len = (0%Z, ipv4_text a ++ [0])).
+Proof.
+  unfold ipv4_to_str_fixed. cbn [fst snd]. split; [apply snprintf_store_len|]. split.
+  - destruct (N.of_nat (length (ipv4_text a)) <? len) eqn:E; [|discriminate].
+    intros _. apply snprintf_store_fits. now apply N.ltb_lt.
+  - intros H. pose proof (ipv4_text_length a).
+    replace (N.of_nat (length (ipv4_text a)) <? len) with true by (symmetry; apply N.ltb_lt; lia).
+    rewrite snprintf_store_fits by lia. reflexivity.
 Qed.
 
 (* a buffer shorter than the documented size: success is returned for a text that
